@@ -125,6 +125,8 @@ def _common_attrs(p, strax):
         attrs["allow_superrun"] = True
     if p.get("parallel"):
         attrs["parallel"] = p["parallel"]
+    if p.get("max_messages"):
+        attrs["max_messages"] = p["max_messages"]  # the plugin asks for a larger output buffer itself
     return attrs
 
 
